@@ -1205,6 +1205,28 @@ func (e *nilEngine) sliceOfKeys(m, s ssa.Value, seen map[ssa.Value]bool, d int) 
 			}
 			return true
 		}
+		// a helper of the module that is handed m and returns a list of its keys
+		if h := x.Call.StaticCallee(); h != nil && !x.Call.IsInvoke() && e.c.P.isModuleFn(h) && len(h.Blocks) > 0 && len(h.Params) == len(x.Call.Args) {
+			for j, a := range x.Call.Args {
+				if a != m {
+					continue
+				}
+				okAll, n := true, 0
+				for _, blk := range h.Blocks {
+					ret, isRet := blk.Instrs[len(blk.Instrs)-1].(*ssa.Return)
+					if !isRet {
+						continue
+					}
+					n++
+					if len(ret.Results) != 1 || !e.sliceOfKeys(h.Params[j], ret.Results[0], map[ssa.Value]bool{}, d+1) {
+						okAll = false
+					}
+				}
+				if okAll && n > 0 && !hasDelete(h, h.Params[j]) {
+					return true
+				}
+			}
+		}
 	}
 	return false
 }
@@ -1294,7 +1316,7 @@ func (e *nilEngine) loadNonNil(ld *ssa.UnOp, st fstate, at ssa.Instruction, d in
 			return true
 		}
 		// elements of slices handed out by libraries (os.ReadDir entries, zip.Reader.File): assumed non-nil (DESIGN 2.5)
-		if externalSlice(a.X) {
+		if externalSlice(a.X) || e.paramAtAllCallSites(a.X, externalSlice, 0) {
 			return true
 		}
 		// range variable copied from a composite-literal table all of whose rows set the field: handled in FieldAddr case
@@ -1464,6 +1486,9 @@ func (e *nilEngine) sliceElemsNonNil(v ssa.Value, d int) bool {
 		switch x := v.(type) {
 		case *ssa.Const:
 			return x.Value == nil
+		case *ssa.Parameter:
+			// a helper's slice parameter: every call site hands it such a slice
+			return e.paramAtAllCallSites(x, func(a ssa.Value) bool { return rec(a, d+1) }, 0)
 		case *ssa.Phi:
 			for _, ed := range x.Edges {
 				if !rec(ed, d+1) {
@@ -2225,4 +2250,31 @@ func (e *nilEngine) pairedByCallee(r, er ssa.Value) bool {
 func externalPairs(name string, k, m int) bool {
 	info, ok := externals[extName(name)]
 	return ok && info.Known && !info.MayNil && m == k+1
+}
+
+// paramAtAllCallSites: v is a parameter of a module function and every call site hands it a value for which pred
+// holds (followed through further parameters, bounded).
+func (e *nilEngine) paramAtAllCallSites(v ssa.Value, pred func(ssa.Value) bool, d int) bool {
+	prm, ok := v.(*ssa.Parameter)
+	if !ok || d > 3 {
+		return false
+	}
+	idx := paramIndex(prm)
+	callers := e.c.P.Callers(prm.Parent())
+	if idx < 0 || len(callers) == 0 {
+		return false
+	}
+	for _, ce := range callers {
+		if ce.Site == nil {
+			return false
+		}
+		cc := ce.Site.Common()
+		if cc.IsInvoke() || cc.StaticCallee() == nil || idx >= len(cc.Args) {
+			return false
+		}
+		if !pred(cc.Args[idx]) && !e.paramAtAllCallSites(cc.Args[idx], pred, d+1) {
+			return false
+		}
+	}
+	return true
 }
